@@ -279,19 +279,9 @@ def agree(case, impl_out, model_out, profile):
     if kind in ("arc", "arca"):
         if kind == "arca" and " maxalloc=" in impl_out:
             impl_out = impl_out.rsplit(" maxalloc=", 1)[0]
-        if txtfile.agree_arc(impl_out, model_out):
-            return True
-        # Count or Info on several addresses (a planted label field can do that): find_label_address returns the first
-        # hit in HASH order, so the library's own answer varies from run to run; only the category is comparable
-        if impl_out.startswith(("ok [", "err:")) and model_out.startswith(("ok [", "err:")):
-            try:
-                labels = txtfile.bin_read("L", unB(case.line.split(" ", 2)[1]))[3]
-            except (txtfile.Malformed, struct.error):
-                return False
-            for name in (b"Count", b"Info"):
-                if len(set(a for (a, n) in labels if n == name)) > 1:
-                    return True
-        return False
+        # since the repair 10408e9 (find_label_address = lowest address carrying the label) the library and the model are
+        # deterministic also when Count or Info sit on several addresses: compared exactly, no special case
+        return txtfile.agree_arc(impl_out, model_out)
     return impl_out == model_out
 
 
